@@ -265,6 +265,11 @@ func init() {
 			st.heap["GH_rbytes"] = Store(rb, id, StrLit(""))
 			x.funcsUsed["lib:io.ReadAll (on success the result is everything the reader still held: unread(rd); nothing else reads from that reader meanwhile)"] = true
 		}
+		if x.ctr != nil && x.ctr.LogLib {
+			// the read appears in the call log of a function that asks for it (`log-lib`), so that
+			// its contract can tell a failed read from a successful one
+			st.calls = append(st.calls, &CallEvent{Kind: "static", Static: cc.StaticCallee(), Args: a, Results: []Val{data, e}, Desc: "io.ReadAll"})
+		}
 		return Val{Tup: []Val{data, e}}, true
 	}
 	libTable["io.LimitReader"] = func(x *Exec, fr *Frame, st *State, cc *ssa.CallCommon, a []Val) (Val, bool) {
